@@ -193,6 +193,7 @@ theorem user_step (s : State) (op : Op) (d : Nat) :
   | unmarshalFd b j => simp [step, (same_unmarshalFd s b j).user]
   | get h => simp [step, (same_get s h).user]
   | dupHandle h => simp [step, (same_dupHandle s h).user]
+  | dupHandleFail h => simp [step, dupHandleFail_state]
   | cloneHandle h => simp [step, (same_cloneHandle s h).user]
   | dropHandle h => simp [step, (same_dropHandle s h).user]
 
